@@ -389,20 +389,23 @@ MayBlobs(r)  == BlobsOf(r, MayMan(r)) \cup Young(r)
 
 \* one collection of repository r; the prediction used when generating keeps everything that may be kept,
 \* trace validation binds the result to the observation and judges it with the clauses of C05/C06
+GCKeepMan(r) == {d \in DOMAIN man[r] : d \in MayMan(r) \/ d \in Young(r)}   \* (entries without content are pruned)
 GC(r) ==
-  /\ UNCHANGED <<sess, nsess, tag>>
-  /\ IF r \notin Repos \/ Cfg.readOnly THEN UNCHANGED <<blob, man, young>> /\ resp' = Ok(0)
+  /\ UNCHANGED <<sess, nsess>>
+  /\ IF r \notin Repos \/ Cfg.readOnly THEN UNCHANGED <<blob, man, tag, young>> /\ resp' = Ok(0)
      ELSE /\ blob' = [blob EXCEPT ![r] = @ \cap MayBlobs(r)]
-          /\ man' = [man EXCEPT ![r] = Restrict(@, {d \in DOMAIN @ : d \in MayMan(r) \/ d \in Young(r)})]
+          /\ man' = [man EXCEPT ![r] = Restrict(@, GCKeepMan(r))]
+          /\ tag' = [tag EXCEPT ![r] = Restrict(@, {t \in DOMAIN @ : @[t] \in GCKeepMan(r)})]
           /\ young' = [young EXCEPT ![r] = @ \cap MayBlobs(r)]
           /\ resp' = Ok(0)
 
 \* one store wide pass: every repository is collected, whatever the order and whatever state other repositories are in
 GCPass ==
-  /\ UNCHANGED <<sess, nsess, tag>>
-  /\ IF Cfg.readOnly THEN UNCHANGED <<blob, man, young>>
+  /\ UNCHANGED <<sess, nsess>>
+  /\ IF Cfg.readOnly THEN UNCHANGED <<blob, man, tag, young>>
      ELSE /\ blob' = [r \in Repos |-> blob[r] \cap MayBlobs(r)]
-          /\ man' = [r \in Repos |-> Restrict(man[r], {d \in DOMAIN man[r] : d \in MayMan(r) \/ d \in Young(r)})]
+          /\ man' = [r \in Repos |-> Restrict(man[r], GCKeepMan(r))]
+          /\ tag' = [r \in Repos |-> Restrict(tag[r], {t \in DOMAIN tag[r] : tag[r][t] \in GCKeepMan(r)})]
           /\ young' = [r \in Repos |-> young[r] \cap MayBlobs(r)]
   /\ resp' = Ok(0)
 
@@ -413,7 +416,8 @@ Age(r) ==
   /\ resp' = Ok(0)
 
 \* is the collection that Close performs on a directory store a no-op ?
-GCNoop == ~Cfg.untagged /\ ~Cfg.dangling /\ ~Cfg.withSubj /\ Cfg.grace /\ \A r \in Repos : young[r] = blob[r]
+GCNoop == /\ ~Cfg.untagged /\ ~Cfg.dangling /\ ~Cfg.withSubj /\ Cfg.grace
+          /\ \A r \in Repos : young[r] = blob[r] /\ DOMAIN man[r] \subseteq blob[r]     \* nothing old, no entry without content
 
 -----------------------------------------------------------------------------
 InitState ==
